@@ -13,6 +13,8 @@ DS = "desolver/differential_system.py"
 
 
 def run(repo, run, tier):
+    from .common import readonly
+    readonly(repo, run, "C19.7", DS, ["OdeSystem.__getitem__", "OdeSystem.__len__"], "the lookup methods of the system")
     run.assumptions += ["the recorded grid is monotone in the direction of the run (property C03)"]
     fn = repo.get(DS, "OdeSystem.__getitem__")
     run.analysed_fn(DS, fn)
